@@ -4,7 +4,32 @@ package app
 
 // Export shim for C16 (overlaid at build time).
 
+import (
+	"context"
+	"log/slog"
+
+	"github.com/sheerbytes/sheerbytes/pkg/protocol"
+)
+
 // VerifBuildWebSocketURL calls the real buildWebSocketURL.
 func VerifBuildWebSocketURL(serverURL, joinCode, peerID, role string, maxReceivers int) (string, error) {
 	return buildWebSocketURL(serverURL, joinCode, peerID, role, maxReceivers)
+}
+
+// VerifC16RelaysReachingProber hands one envelope received from the signaling
+// server to the real handleEnvelope of a fresh client object of the given role
+// ("sender" = *SnapshotSender, "receiver" = *snapshotReceiver; no --turn-server
+// given on the client's own command line, the default of thru) and returns what
+// the role then puts into ice.ProberConfig.TurnServers (currentTurnServers, the
+// expression both runICEQUICTransfer and the receiver's transfer goroutine use).
+// Only the fields the turn_credentials branch touches are set.
+func VerifC16RelaysReachingProber(role string, env protocol.Envelope, logger *slog.Logger) []string {
+	if role == "sender" {
+		s := &SnapshotSender{logger: logger, peerID: env.To}
+		s.handleEnvelope(context.Background(), env)
+		return s.currentTurnServers()
+	}
+	r := &snapshotReceiver{logger: logger, peerID: env.To}
+	r.handleEnvelope(env)
+	return r.currentTurnServers()
 }
